@@ -330,6 +330,16 @@ class ExactF64:
                     if ctx.check(z3.Not(okc)) != z3.unsat:
                         raise Unmodelled('exact-f64 abstraction: the product may exceed 2^53')
                     return ExactF64(num, self.den)
+        if op in ('Ge', 'Gt', 'Le', 'Lt', 'Eq', 'Ne') and z3.is_fp(other):
+            o = z3.simplify(other)
+            if z3.is_fp_value(o) and not o.isNaN() and not o.isInf():
+                # num/den (>= 0) against the rational constant p/q: cross-multiplied in 128 bits
+                r = z3.simplify(z3.fpToReal(o))
+                p_, q_ = r.numerator_as_long(), r.denominator_as_long()
+                if p_ < 0:
+                    return z3.BoolVal(op in ('Ge', 'Gt', 'Ne'))
+                a = z3.ZeroExt(64, self.num) * z3.BitVecVal(q_, 128); b = z3.BitVecVal(p_ * self.den, 128)
+                return {'Ge': z3.UGE(a, b), 'Gt': z3.UGT(a, b), 'Le': z3.ULE(a, b), 'Lt': z3.ULT(a, b), 'Eq': a == b, 'Ne': a != b}[op]
         raise Unmodelled('exact-f64 abstraction: %s with %r' % (op, other))
 
     def cast(self, ctx, to, kind, from_ty):
